@@ -25,6 +25,7 @@ import (
 	"verifharness/internal/c18"
 	"verifharness/internal/c19"
 	"verifharness/internal/c20"
+	"verifharness/internal/cint"
 	"verifharness/internal/vh"
 )
 
@@ -75,6 +76,8 @@ func main() {
 		it = c19.New()
 	case "C20":
 		it = c20.New()
+	case "INT":
+		it = cint.New()
 	default:
 		fmt.Fprintln(os.Stderr, "unknown property", os.Args[1])
 		os.Exit(2)
